@@ -1379,6 +1379,23 @@ def mon_C19(case):
         if x.startswith("rdx get-succeeded"):
             return [(0, "a connection was established although every named server hangs up")]
     fam = ws[1]
+    if fam == "serde" and len(ws) > 2 and ws[2] == "partial":
+        # rdin serde partial <flavour> <u> <c> <pool|-> <flag|-> <name|->
+        fl, u, c, pool, flag, name = ws[3:9]
+        if not o.startswith("rdout serde partial u="):
+            return [(0, f"{fl} config document (url(s) {u}, connection(s) {c}, pool {pool}) was not accepted: {o[:80]}")]
+        r = kvs(o)
+        want = {"u": u, "c": c, "pool": pool,
+                "flag": "-" if fl == "redis" else ("0" if flag == "-" else flag),
+                "name": (("mymaster" if name == "-" else name) if fl == "sentinel" else "-"),
+                "build": {("1", "0"): "urls", ("0", "1"): "conns", ("0", "0"): "default", ("1", "1"): "both"}[(u, c)]}
+        what = {"u": "url(s) present", "c": "connection(s) present", "pool": "pool.max_size",
+                "flag": "read_from_replicas / server_type = replica", "name": "master_name", "build": "builder()"}
+        for k2, v in want.items():
+            if r.get(k2) != v:
+                return [(0, f"{fl} config read from a document with url(s)={u} connection(s)={c} pool={pool} flag={flag} master_name={name}: "
+                            f"{what[k2]} is {r.get(k2)}, expected {v} (omitted keys take the documented defaults, nothing is conjured)")]
+        return []
     if fam == "node":
         # rdin node <arm> <present> <db> <user|-> <pass|->: what the fake master must have seen
         arm, present, db, user, pw = ws[2:7]
